@@ -23,7 +23,8 @@ RULE = ("custom: amino-acid clonal families x a family of exactly symmetric cust
         "max_tcrdist, incl. draws with no qualifying pair; oracle = brute force over ordered pairs with own DP, own CSV lookup "
         "and the stand-in CDR3 distance. tables: every entry of both CSVs (square, labels, symmetric, zero diagonal, no NaN). "
         "Non-trivial (custom): some pair lies inside one radius and outside the other; (tcrdist): >= 1 candidate pair removed "
-        "by the TCRdist radius or no candidate at all.")
+        "by the TCRdist radius or no candidate at all."
+        " Also (custom): planted collections of 300-6000 and dense collections of 229-687 sequences with exact oracles by construction.")
 ASSUMPTIONS = ["nearest_neighbor_tcrdist runs against the vendored stand-in for the absent optional dependency pwseqdist; "
                "agreement of the stand-in with the real package's numerics is not claimed",
                "custom distances are symmetric with d(x,x)=0, as the documented contract requires"]
@@ -87,6 +88,55 @@ def check_custom(case, rec):
     got = trip(call("search", run, case["engine"], seqs, seqs2, k, f, maxc))
     same_multiset("two-radii", got, [(a, b, int(d) if float(d) == int(d) else float(d)) for a, b, d in want],
                   f"engine={case['engine']} dist={name} k={k} maxc={maxc}")
+
+
+def check_planted(case, rec):
+    """Hundreds to thousands of sequences in one call (several k-d tree leaves, long deletion-variant buckets); exact oracle by
+    construction: in a G.planted_collection all pairs within edit radius k lie inside the planted families."""
+    n, k, name = case["n"], case["k"], case["dist"]
+    maxc = float(case["maxc"])
+    f = CUSTOM[name]
+    seqs, fams = G.planted_collection(n, k, case.get("salt", 0), high=True)
+    want = [(a, b, f(seqs[a], seqs[b])) for (a, b, d) in G.planted_neighbours(seqs, fams, k, O.lev) if f(seqs[a], seqs[b]) <= maxc]
+    rec.note(case, True, [f"n={n}", case["engine"], name])
+    got = trip(call("search", run, case["engine"], seqs, None, k, f, maxc))
+    same_multiset("planted-two-radii", got, [(a, b, int(d) if float(d) == int(d) else float(d)) for a, b, d in want],
+                  f"engine={case['engine']} dist={name} k={k} maxc={maxc} n={n}")
+
+
+def check_dense(case, rec):
+    """Dense repertoires: all single substitutions of 1-3 founders (every family member has hundreds of neighbours, many of them
+    exactly on the search radius, spread over many k-d tree leaves / hash buckets). Distances are known analytically."""
+    k, name = case["k"], case["dist"]
+    maxc = float(case["maxc"])
+    f = CUSTOM[name]
+    seqs, meta = G.dense_collection(case["founders"], case.get("per_founder"), case.get("step", 1))
+    want = [(a, b, f(seqs[a], seqs[b])) for (a, b, d) in G.dense_neighbours(meta, k) if f(seqs[a], seqs[b]) <= maxc]
+    rec.note(case, True, [f"n={len(seqs)}", case["engine"], name, f"k={k}"])
+    got = trip(call("search", run, case["engine"], seqs, None, k, f, maxc))
+    same_multiset("dense-two-radii", got, [(a, b, int(d) if float(d) == int(d) else float(d)) for a, b, d in want],
+                  f"engine={case['engine']} dist={name} k={k} maxc={maxc} n={len(seqs)} (all substitutions of {case['founders']} founder(s))")
+
+
+def enum_dense(tier):
+    yield {"founders": 2, "k": 1, "engine": "kdtree", "dist": "double", "maxc": "inf"}
+    yield {"founders": 1, "k": 2, "engine": "kdtree", "dist": "unit", "maxc": "1"}
+    yield {"founders": 3, "per_founder": 120, "k": 1, "engine": "symdel", "dist": "half", "maxc": "inf"}
+    yield {"founders": 1, "per_founder": 60, "step": 3, "k": 1, "engine": "hash_based", "dist": "triple", "maxc": "3"}
+    if tier == "thorough":
+        yield {"founders": 3, "k": 2, "engine": "kdtree", "dist": "lenpen", "maxc": "inf"}
+        yield {"founders": 3, "k": 2, "engine": "symdel", "dist": "double", "maxc": "2"}
+        yield {"founders": 3, "k": 1, "engine": "kdtree", "dist": "blocks", "maxc": "inf"}
+
+
+def enum_planted(tier):
+    yield {"n": 600, "k": 1, "engine": "kdtree", "dist": "double", "maxc": "inf", "salt": 1}
+    yield {"n": 900, "k": 2, "engine": "kdtree", "dist": "half", "maxc": "0.5", "salt": 2}
+    yield {"n": 700, "k": 1, "engine": "symdel", "dist": "lenpen", "maxc": "inf", "salt": 3}
+    yield {"n": 300, "k": 1, "engine": "hash_based", "dist": "double", "maxc": "2", "salt": 4}
+    if tier == "thorough":
+        yield {"n": 6000, "k": 1, "engine": "kdtree", "dist": "blocks", "maxc": "inf", "salt": 5}
+        yield {"n": 5000, "k": 2, "engine": "symdel", "dist": "double", "maxc": "2", "salt": 6}
 
 
 @st.composite
@@ -251,6 +301,8 @@ def enum_tables(tier):
 
 SUBS = [
     Sub("custom", check_custom, strategy=lambda tier: custom_case(tier), budget=(3000, 30000)),
+    Sub("planted_large", check_planted, enum=enum_planted),
+    Sub("dense", check_dense, enum=enum_dense),
     Sub("tcrdist", check_tcrdist, strategy=lambda tier: tcr_case(tier), budget=(800, 8000)),
     Sub("tables", check_table, enum=enum_tables),
 ]
